@@ -127,6 +127,14 @@ func scenarios(u *universe) []scenario {
 					PeerServerAddresses: []string{"10.0.0.1:8503"}, PeerID: uuidN(0xc2, 1)}
 				return entry{data: encProto(structs.PeeringWriteType, &pbpeering.PeeringWriteRequest{Peering: p}), kind: "peering-write", desc: "peering-write peer3 (dialer) state=DELETING"}
 			}())}},
+		// a peering ID first used by an accepting peering (establishment secret tracked), terminated and deleted, then
+		// written again as a DIALING peering with an Establish secret: the dialer branch of peeringSecretsWriteTxn
+		// replaces the orphaned secrets row without freeing its uuid (round 5 finding)
+		{"peering-id-reused-by-dialer", []entry{
+			at(3, eGenerate(u.peerIDs[1], "peer2", e1, true)),
+			at(5, entry{data: encProto(structs.PeeringTerminateByIDType, &pbpeering.PeeringTerminateByIDRequest{ID: u.peerIDs[1]}), kind: "peering-terminate", desc: "peering-terminate " + u.peerIDs[1]}),
+			at(6, entry{data: encProto(structs.PeeringDeleteType, &pbpeering.PeeringDeleteRequest{Name: "peer2"}), kind: "peering-delete", desc: "peering-delete peer2"}),
+			at(8, sPeering(u.peerIDs[1], "peer2", true, dialSecrets[2]))}},
 		{"node-locality", []entry{at(6, sReg(structs.RegisterRequest{Node: "n1", Address: "127.0.0.1", Locality: &structs.Locality{Region: "us-east-1", Zone: "a"}}, "register n1 with locality"))}},
 		{"kind-service-names-index", []entry{
 			at(1, sReg(structs.RegisterRequest{Node: "n1", Address: "127.0.0.1", Service: svc("web")}, "register n1 web")),
